@@ -711,12 +711,13 @@ class IPPO(MultiAgentRLAlgorithm):
                     _, _, entropy = actor(batch_states)
                     value = critic(batch_states).squeeze(-1)
 
-                    log_prob = actor.action_log_prob(batch_actions)
-
+                    # squeeze() removed the action dimension of one-dimensional Box actions
                     if isinstance(action_space, spaces.Box) and action_space.shape == (
                         1,
                     ):
                         batch_actions = batch_actions.unsqueeze(1)
+
+                    log_prob = actor.action_log_prob(batch_actions)
 
                     logratio = log_prob - batch_log_probs
                     ratio = logratio.exp()
